@@ -155,6 +155,7 @@ class C06Monitor(Monitor):
             self.lsc_seen.add(info["deme"].id)
             if info["verdict"]:
                 self.lsc_true.add(info["deme"].id)
+            self.lsc_reference(info["deme"], info["real"])
         elif kind == "step_begin":
             self.lsc_true = set()
             self.lsc_seen = set()
@@ -164,6 +165,43 @@ class C06Monitor(Monitor):
             if self.prev is not None:
                 self.judge(tree, self.prev, cur)
             self.prev = cur
+
+    def lsc_reference(self, d, real):
+        """The shipped local condition's verdict by its documented meaning (public attributes only)."""
+        x = self.x
+        specs = x.desc.get("lsc")
+        spec = specs[d.level] if specs else None
+        ref = None
+        kind = spec if isinstance(spec, str) else (spec or {}).get("kind", "dontstop") if spec is not None else "dontstop"
+        if kind == "dontstop":
+            ref = False
+        elif kind == "dontrun":
+            ref = True
+        elif kind == "metaepoch":
+            ref = d.metaepoch_count >= spec["m"]
+        elif kind == "allchildren":
+            ref = bool(d.children) and all(not c.is_active for c in d.children)
+        elif kind == "steadiness":
+            n = spec.get("n", 2)
+            if n > d.metaepoch_count:
+                ref = False
+            else:
+                # mean fitness of each of the last n metaepochs (all generations of a metaepoch pooled)
+                hist = getattr(d, "_history", None)
+                if hist is not None:
+                    avgs = [float(np.mean([i.fitness for g in hist[k] for i in g])) for k in range(-n, 0)]
+                    ref = (float(np.mean(avgs)) - float(np.min(avgs))) <= spec.get("dev", 0.001)
+        if ref is None:
+            return
+        x.extra_count("C06 shipped local-condition verdicts compared")
+        if ref:
+            x.flag("shipped local condition true")
+        if bool(real) != bool(ref):
+            x.violate(
+                f"C06/shipped-lsc-verdict:{kind}",
+                f"local stop condition {kind} of {type(d).__name__} {d.id} answers {real}, by its documented meaning it should answer {ref} "
+                f"(own metaepochs {d.metaepoch_count}, children active {[c.is_active for c in d.children]})",
+            )
 
     def judge(self, tree, prev, cur):
         x = self.x
